@@ -37,8 +37,8 @@ theorem source_tables :
   refine ⟨by decide, ?_, by decide, by decide, by decide, by decide, by decide, by decide, by decide, by decide,
     by decide⟩
   intro s
-  simp only [Gen.C15.reassignValues, List.mem_cons, List.not_mem_nil, or_false]
-  tauto
+  constructor <;> intro h <;> simp only [Gen.C15.reassignValues, List.mem_cons, List.not_mem_nil, or_false] at h ⊢ <;>
+    tauto
 
 /-- The classes the documentation lists as "only taken from the first part" are exactly the classes the code
 discards in voice mode, and in staff / auto mode exactly those except the clefs (which the documentation says are
